@@ -579,7 +579,17 @@ func (n *node) RouteLinkPID(pid gen.PID, target gen.PID) error {
 			return gen.ErrProcessUnknown
 		}
 		lib.VerifPoint(target, "link:add")
-		return n.targetManager.AddLink(pid, target)
+		if err := n.targetManager.AddLink(pid, target); err != nil {
+			return err
+		}
+		if _, exist := n.processes.Load(target); exist == false {
+			// the target went away between the lookup and the insert: drop the relation
+			// unless the termination drain has already taken it (and sent the notification)
+			if n.targetManager.RemoveLink(pid, target) == nil {
+				return gen.ErrProcessUnknown
+			}
+		}
+		return nil
 	}
 
 	// remote target
@@ -641,7 +651,17 @@ func (n *node) RouteLinkProcessID(pid gen.PID, target gen.ProcessID) error {
 			return gen.ErrProcessUnknown
 		}
 		lib.VerifPoint(target, "link:add")
-		return n.targetManager.AddLink(pid, target)
+		if err := n.targetManager.AddLink(pid, target); err != nil {
+			return err
+		}
+		if _, exist := n.names.Load(target.Name); exist == false {
+			// the target went away between the lookup and the insert: drop the relation
+			// unless the termination drain has already taken it (and sent the notification)
+			if n.targetManager.RemoveLink(pid, target) == nil {
+				return gen.ErrProcessUnknown
+			}
+		}
+		return nil
 	}
 
 	// remote target
@@ -699,7 +719,17 @@ func (n *node) RouteLinkAlias(pid gen.PID, target gen.Alias) error {
 			return gen.ErrAliasUnknown
 		}
 		lib.VerifPoint(target, "link:add")
-		return n.targetManager.AddLink(pid, target)
+		if err := n.targetManager.AddLink(pid, target); err != nil {
+			return err
+		}
+		if _, exist := n.aliases.Load(target); exist == false {
+			// the target went away between the lookup and the insert: drop the relation
+			// unless the termination drain has already taken it (and sent the notification)
+			if n.targetManager.RemoveLink(pid, target) == nil {
+				return gen.ErrAliasUnknown
+			}
+		}
+		return nil
 	}
 
 	// remote target
@@ -767,6 +797,13 @@ func (n *node) RouteLinkEvent(pid gen.PID, target gen.Event) ([]gen.MessageEvent
 		lib.VerifPoint(target, "link:add")
 		if err := n.targetManager.AddLink(pid, target); err != nil {
 			return nil, err
+		}
+		if _, exist := n.events.Load(target); exist == false {
+			// the event went away between the lookup and the insert: drop the relation
+			// unless the termination drain has already taken it (and sent the notification)
+			if n.targetManager.RemoveLink(pid, target) == nil {
+				return nil, gen.ErrEventUnknown
+			}
 		}
 
 		if event.last != nil {
@@ -883,7 +920,17 @@ func (n *node) RouteMonitorPID(pid gen.PID, target gen.PID) error {
 			}
 		}
 		lib.VerifPoint(target, "monitor:add")
-		return n.targetManager.AddMonitor(pid, target)
+		if err := n.targetManager.AddMonitor(pid, target); err != nil {
+			return err
+		}
+		if _, exist := n.processes.Load(target); exist == false {
+			// the target went away between the lookup and the insert: drop the relation
+			// unless the termination drain has already taken it (and sent the notification)
+			if n.targetManager.RemoveMonitor(pid, target) == nil {
+				return gen.ErrProcessUnknown
+			}
+		}
+		return nil
 	}
 
 	// remote target
@@ -948,7 +995,17 @@ func (n *node) RouteMonitorProcessID(pid gen.PID, target gen.ProcessID) error {
 			}
 		}
 		lib.VerifPoint(target, "monitor:add")
-		return n.targetManager.AddMonitor(pid, target)
+		if err := n.targetManager.AddMonitor(pid, target); err != nil {
+			return err
+		}
+		if _, exist := n.names.Load(target.Name); exist == false {
+			// the target went away between the lookup and the insert: drop the relation
+			// unless the termination drain has already taken it (and sent the notification)
+			if n.targetManager.RemoveMonitor(pid, target) == nil {
+				return gen.ErrProcessUnknown
+			}
+		}
+		return nil
 	}
 
 	// remote target
@@ -1008,7 +1065,17 @@ func (n *node) RouteMonitorAlias(pid gen.PID, target gen.Alias) error {
 			return gen.ErrAliasUnknown
 		}
 		lib.VerifPoint(target, "monitor:add")
-		return n.targetManager.AddMonitor(pid, target)
+		if err := n.targetManager.AddMonitor(pid, target); err != nil {
+			return err
+		}
+		if _, exist := n.aliases.Load(target); exist == false {
+			// the target went away between the lookup and the insert: drop the relation
+			// unless the termination drain has already taken it (and sent the notification)
+			if n.targetManager.RemoveMonitor(pid, target) == nil {
+				return gen.ErrAliasUnknown
+			}
+		}
+		return nil
 	}
 
 	// remote target
@@ -1075,6 +1142,13 @@ func (n *node) RouteMonitorEvent(pid gen.PID, target gen.Event) ([]gen.MessageEv
 		lib.VerifPoint(target, "monitor:add")
 		if err := n.targetManager.AddMonitor(pid, target); err != nil {
 			return nil, err
+		}
+		if _, exist := n.events.Load(target); exist == false {
+			// the event went away between the lookup and the insert: drop the relation
+			// unless the termination drain has already taken it (and sent the notification)
+			if n.targetManager.RemoveMonitor(pid, target) == nil {
+				return nil, gen.ErrEventUnknown
+			}
 		}
 
 		if event.last != nil {
